@@ -872,6 +872,27 @@ StringStringMap transferUnitsRenamingIfRequired(const ModelPtr &sourceModel, con
 
 void flattenUnitsImports(const ModelPtr &flatModel, const UnitsPtr &units, size_t index, const ComponentPtr &component);
 
+bool unitsDependOn(const ModelPtr &model, const std::string &name, const std::string &dependency, NameList &visited)
+{
+    if (name == dependency) {
+        return true;
+    }
+    if (std::find(visited.begin(), visited.end(), name) != visited.end()) {
+        return false;
+    }
+    visited.push_back(name);
+    auto units = model->units(name);
+    if (units != nullptr) {
+        for (size_t unitIndex = 0; unitIndex < units->unitCount(); ++unitIndex) {
+            std::string reference = units->unitAttributeReference(unitIndex);
+            if (!reference.empty() && !isStandardUnitName(reference) && unitsDependOn(model, reference, dependency, visited)) {
+                return true;
+            }
+        }
+    }
+    return false;
+}
+
 void retrieveUnitsDependencies(const ModelPtr &flatModel, const ModelPtr &model, const UnitsPtr &u, const ComponentPtr &component)
 {
     for (size_t unitIndex = 0; unitIndex < u->unitCount(); ++unitIndex) {
@@ -892,9 +913,11 @@ void retrieveUnitsDependencies(const ModelPtr &flatModel, const ModelPtr &model,
                 auto childChangedNames = transferUnitsRenamingIfRequired(model, flatModel, childUnits, component);
                 auto childChange = childChangedNames.find(reference);
                 if ((childChange != childChangedNames.end()) && (childChange->second != childUnits->name())) {
-                    // Equal units already exist in the flat model under another name: refer to those, unless they are the
-                    // very units whose dependencies are being retrieved (units equal to the units they are defined by).
-                    if (childChange->second != u->name()) {
+                    // Equal units already exist in the flat model under another name: refer to those, unless they are, or are
+                    // defined by, the very units whose dependencies are being retrieved (units equal to the units they are
+                    // defined by: the reference would close a cycle).
+                    NameList visited;
+                    if (!unitsDependOn(flatModel, childChange->second, u->name(), visited)) {
                         u->setUnitAttributeReference(unitIndex, childChange->second);
                     } else if (!flatModel->hasUnits(childUnits->name())) {
                         flatModel->addUnits(childUnits);
